@@ -39,6 +39,7 @@ TRUSTED_BASE = [
     "hand-written Lean models tied to /repo by the correspondence check of this run (generator-bounded)",
     "floating-point rounding, PyTorch/LAPACK/SciPy/libm kernels, CPython, OS: outside the model (contracts validated numerically, not proved)",
     "the Python harness, the line protocol and its canonicalisation; harness/compat.py shim for pulser-core 1.9.1",
+    "the model driver is the Lean compiler's native build of Driver.lean (Model/ + Drv/ only, no Mathlib); VERIF_INTERPRETED_DRIVER=1 runs it in the interpreter instead",
 ]
 
 
@@ -180,7 +181,11 @@ class Driver:
             return []
         for l in lines:
             assert "\n" not in l
-        p = subprocess.run(["lake", "env", "lean", "--run", "Driver.lean"], cwd=LEAN,
+        # the driver imports Model/ and Drv/ only (no Mathlib), so it is also built as a native executable
+        # (`lake build emudriver`, done by lean_stage / setup); the interpreter is the fall-back
+        exe = LEAN / ".lake" / "build" / "bin" / "emudriver"
+        cmd = [str(exe)] if (exe.exists() and not os.environ.get("VERIF_INTERPRETED_DRIVER")) else ["lake", "env", "lean", "--run", "Driver.lean"]
+        p = subprocess.run(cmd, cwd=LEAN,
                            input="\n".join(lines) + "\n", text=True, timeout=timeout,
                            stdout=subprocess.PIPE, stderr=subprocess.PIPE)
         out = p.stdout.splitlines()
@@ -314,11 +319,11 @@ class Report:
 
 def lean_stage(rep: Report, prop_module: str, audit_file: str, thorough: bool = False) -> None:
     """Steps 1-3 of DESIGN §2.5: build, forbidden-token grep, #print axioms audit."""
-    rep.checker_cmd = (f"cd lean && lake build {prop_module} EmuVerif.Drv.All && lake env lean {audit_file}"
+    rep.checker_cmd = (f"cd lean && lake build {prop_module} EmuVerif.Drv.All emudriver && lake env lean {audit_file}"
                        + (f" && lake env leanchecker {prop_module}" if thorough else ""))
     expected = audit_expected(audit_file)
     rep.obligations = expected
-    ok, out = lake_build([prop_module, "EmuVerif.Drv.All"])
+    ok, out = lake_build([prop_module, "EmuVerif.Drv.All", "emudriver"])
     if not ok:
         rep.broke(f"lake build {prop_module}: " + out[-1500:])
         return
